@@ -98,6 +98,8 @@ def failure_key(f):
         return "two_chains_produced_identical_draws"
     if k == "ctl_resp" and ev.get("cmd") == "flush":
         return "flush_did_not_reach_every_chain_storage"
+    if k == "ch_result" and ev.get("spurious"):
+        return "chain_failed_although_nothing_unrecoverable_happened"
     if k == "ch_drawn":
         for e in reversed(f.get("prefix", [])[:-1]):
             if e.get("i") == ev.get("i") and e.get("ev") == "fatal_fired":
